@@ -424,8 +424,12 @@ func (fr *Frame) applyContract(ct *FuncContract, fn *ssa.Function, sig *types.Si
 	var res []Val
 	for i := 0; i < nres; i++ {
 		rt := sig.Results().At(i).Type()
-		if ct.Flags["deterministic"] && nres == 1 {
-			r := fx.pureUF(name, args, sigParamTypes(sig, fn, len(args)), rt)
+		if ct.Flags["deterministic"] && (nres == 1 || sortOf(rt) != SIface) {
+			ufName := name
+			if nres > 1 {
+				ufName = fmt.Sprintf("%s#%d", name, i) // one uninterpreted function per result
+			}
+			r := fx.pureUF(ufName, args, sigParamTypes(sig, fn, len(args)), rt)
 			fx.wellFormed(st, r, rt)
 			res = append(res, tv(r))
 			continue
